@@ -79,6 +79,7 @@ type ContractSet struct {
 	Unbound   []string
 	FlagSets  map[string]int // type key -> number of bits
 	MethodNonNil map[string]bool
+	FuncValueNonNil map[string]bool
 	StructFacts  []StructFact
 	ParametricFiles []string
 	ParametricFuncs map[string]bool
@@ -114,7 +115,7 @@ type TypeInv struct {
 
 var clauseKeywords = map[string]bool{"stable": true, "reads-model": true, "names": true, "iteration": true, "variant": true, "requires": true, "ensures": true, "invariant": true, "decreases": true, "property": true,
 	"pure": true, "assigns": true, "trusted": true, "noinline": true, "inline": true, "func": true, "sweep": true, "immutable": true, "spec": true,
-	"axiom": true, "flagset": true, "safeonly": true, "immutable-family": true, "method-pre": true, "entry": true, "type-invariant": true, "elems-nonnil": true, "callback-parametric": true, "json-hidden": true, "json-visible": true, "pass-order": true, "observe-args": true, "map-order": true}
+	"axiom": true, "flagset": true, "safeonly": true, "immutable-family": true, "method-pre": true, "funcvalue-pre": true, "entry": true, "type-invariant": true, "elems-nonnil": true, "callback-parametric": true, "json-hidden": true, "json-visible": true, "pass-order": true, "observe-args": true, "map-order": true}
 
 var contractRoot = "" // directory that contract file paths are relative to (repo or mirror)
 
@@ -504,6 +505,19 @@ func (w *World) parseContractFile(cs *ContractSet, file string) error {
 					cs.MethodNonNil = map[string]bool{}
 				}
 				cs.MethodNonNil[fs[1]] = true
+			}
+		case "funcvalue-pre":
+			// funcvalue-pre pkg.FuncType nonnil : every call through a value of that named function type passes
+			// non-nil interface and pointer operands (a precondition at each such call)
+			if len(fs) >= 3 && fs[2] == "nonnil" {
+				if cs.FuncValueNonNil == nil {
+					cs.FuncValueNonNil = map[string]bool{}
+				}
+				k := fs[1]
+				if pkgShort != "" && !strings.Contains(k, ".") {
+					k = pkgShort + "." + k
+				}
+				cs.FuncValueNonNil[k] = true
 			}
 		case "immutable":
 			for _, f := range strings.Fields(strings.ReplaceAll(rest, ",", " ")) {
